@@ -200,6 +200,22 @@ def eval_invariants(eng, spec, st, label, node, establish):
     # locals first assigned inside the loop are undefined (arbitrary) before the first iteration
     for nm, k in spec.get("kinds", {}).items():
         if nm not in st.locals and hasattr(k, "sort"):
+            fs = eng.func_stack[-1]
+            stored = getattr(fs, "_stored_names", None)
+            if stored is None:
+                stored = {n.id for n in ast.walk(fs.node) if isinstance(n, ast.Name) and isinstance(n.ctx, ast.Store)}
+                stored |= {a.arg for a in ast.walk(fs.node) if isinstance(a, ast.arg)}
+                fs._stored_names = stored
+            used = set()
+            for inv in spec.get("invariants", []):
+                tree = inv if isinstance(inv, ast.AST) else ast.parse(inv, mode="eval").body
+                used |= {n.id for n in ast.walk(tree) if isinstance(n, ast.Name)}
+            if nm not in stored and nm not in used:
+                continue
+            if nm not in stored:
+                # the loop specification names a local the function does not have (e.g. renamed by an edit): the
+                # specification cannot be evaluated - undecided, never a failed obligation
+                raise Untranslatable(f"{label}: the loop specification names the local '{nm}' which {fs.qualname} does not assign", node)
             st.locals[nm] = fresh(k, nm + "_undef")
     for n, inv in enumerate(spec.get("invariants", [])):
         tree = inv if isinstance(inv, ast.AST) else ast.parse(inv, mode="eval").body
